@@ -69,6 +69,26 @@ fn differential(ctx: &mut Ctx, b: &[u8], what: &str) -> bool {
     }
 }
 
+/// accept/reject and decoded fields against the reference only (for the very large enumerations)
+fn light(ctx: &mut Ctx, b: &[u8], what: &str) {
+    ctx.eval();
+    let r = chunk_ref(b);
+    match guard(|| Chunk::try_from(b).ok().map(|d| chunk_lib_fields(&d))) {
+        Err(p) => ctx.panic_violation("Chunk::try_from", &p, json!({"bytes": hex_short(b)})),
+        Ok(None) if r.is_some() => ctx.violation("well-formed chunk rejected", format!("{} len={}", what, b.len()), json!({"bytes": hex_short(b)})),
+        Ok(Some(_)) if r.is_none() => ctx.violation("ill-formed chunk accepted", format!("{} len={}", what, b.len()), json!({"bytes": hex_short(b)})),
+        Ok(Some(f)) => {
+            if Some(&f) != r.as_ref() {
+                ctx.violation("chunk accessor differs", what.to_string(), json!({"bytes": hex_short(b)}));
+            } else if chunk_encode(&f) != b {
+                ctx.violation("chunk re-encoding differs", what.to_string(), json!({"bytes": hex_short(b)}));
+            }
+            ctx.count("accepted by both (sweeps)");
+        }
+        Ok(None) => {}
+    }
+}
+
 fn corrupted(ctx: &mut Ctx, orig: &[u8], x: &[u8], kind: &str, desc: impl Fn() -> String) {
     ctx.eval();
     ctx.count(kind);
@@ -80,6 +100,10 @@ fn corrupted(ctx: &mut Ctx, orig: &[u8], x: &[u8], kind: &str, desc: impl Fn() -
         Ok(true) => ctx.violation("corrupted chunk accepted", format!("{} {}", kind, desc()), json!({"original": hex(orig), "corrupted": hex(x)})),
         Err(p) => ctx.panic_violation("Chunk::try_from", &p, json!({"bytes": hex(x)})),
     }
+}
+
+fn rng_board(rng: &mut Rng) -> [u8; 6] {
+    rng.pick(&PWB_BOARDS).1
 }
 
 fn flip(x: &mut [u8], bit: usize) {
@@ -217,6 +241,49 @@ fn run(ctx: &mut Ctx) {
             x.extend(vec![0u8; e]);
             differential(ctx, &x, "extended");
         }
+    });
+    // ---- every declared length 0..=65535 against bodies of several sizes, header CRC consistent, body ending in
+    // zero bytes so that a wrong split between payload and padding is not masked by the zero-padding rule
+    ctx.cases("declared-length-sweep", 16 * 8, |ctx, i, rng| {
+        let body = [8usize, 260, 264, 516, 1028, 4100, 65_532, 65_536][(i / 16) as usize];
+        let part = i % 16;
+        let board = rng_board(rng);
+        let mut payload = rng.bytes(body).iter().map(|b| b | 1).collect::<Vec<u8>>();
+        let zeros = [0usize, 1, 2, 3, 4, 260][(i % 6) as usize].min(body);
+        for k in body - zeros..body {
+            payload[k] = 0;
+        }
+        // body is a multiple of 4, so the encoder adds no padding of its own
+        let c = enc::Chunk { device_id: pwb_device_id(&board), packet_sequence: 7, channel_sequence: 8, channel_id: 2, flags: 1, chunk_id: 3, payload };
+        let mut b = c.encode();
+        if b.len() != 24 + body {
+            b.truncate(20);
+            b.extend(&c.payload);
+            b.extend([0u8; 4]);
+        }
+        let n = b.len();
+        let pc = !enc::crc32c(&b[20..n - 4]);
+        b[n - 4..].copy_from_slice(&pc.to_le_bytes());
+        for l in (part * 4096)..((part + 1) * 4096) {
+            b[14..16].copy_from_slice(&(l as u16).to_le_bytes());
+            let h = !enc::crc32c(&b[..16]);
+            b[16..20].copy_from_slice(&h.to_le_bytes());
+            light(ctx, &b, "declared length sweep");
+        }
+        ctx.count_n("declared lengths swept", 4096);
+    });
+    // ---- one header field at a constant from the library's sources and one more header bit / byte changed, with
+    // the header CRC consistent
+    let dict = super::source_dictionary("detector/src");
+    ctx.cases("dictionary-pairs", 16, |ctx, off, rng| {
+        let board = rng_board(rng);
+        let c = enc::Chunk { device_id: pwb_device_id(&board), packet_sequence: 7, channel_sequence: 8, channel_id: 1, flags: 0, chunk_id: 3, payload: rng.bytes(11) };
+        let seed = c.encode();
+        let n = super::dict_pairs(&seed, off as usize, 0..16, &dict, |x| {
+            let h = !enc::crc32c(&x[..16]);
+            x[16..20].copy_from_slice(&h.to_le_bytes());
+        }, |b| light(ctx, b, "header field at a source constant + one more change"));
+        ctx.count_n("inputs with a field at a source constant", n);
     });
     // ---- corruption campaign on accepted chunks
     let camp: Vec<usize> = if thorough { vec![1, 2, 3, 4, 5, 6, 7, 8, 9, 13, 16, 31, 32, 33, 63, 64, 65, 100, 255, 256, 257, 1000, 1400, 4096, 16384, 65532, 65535] } else { vec![1, 2, 3, 4, 5, 8, 31, 32, 64, 255, 1400, 65535] };
